@@ -125,19 +125,25 @@ func byteOrder(structs []smbgen.Struct) {
 
 // AndX block: command, reserved, offset (LE16) — as first four parameter bytes and via AndX.Marshal.
 func andxBlocks(structs []smbgen.Struct) {
-	for _, off := range []uint16{0x0102, 0x8001, 0x00FF, 0xFF00} {
+	for oi, off := range []uint16{0x0102, 0x8001, 0x00FF, 0xFF00, 0x0304, 0x7F80} {
+		cmd := byte(0xA2)
+		if oi >= 4 {
+			cmd = 0xFF // the chain terminator: the offset field is still a field
+		}
 		a := andx.NewAndX()
-		a.AndXCommand, a.AndXReserved, a.AndXOffset = codes.CommandCode(0xA2), 0x5A, off
-		want := []byte{0xA2, 0x5A, byte(off), byte(off >> 8)}
+		a.AndXCommand, a.AndXReserved, a.AndXOffset = codes.CommandCode(cmd), 0x5A, off
+		want := []byte{cmd, 0x5A, byte(off), byte(off >> 8)}
 		got, err := a.Marshal()
 		r.Eval(1)
-		if err != nil || !bytes.Equal(got, want) {
+		if err == nil && len(got) == 4 && !bytes.Equal(got, want) && !bytes.Equal(got, []byte{want[0], want[1], want[3], want[2]}) {
+			r.Violation("andx.AndX.Marshal:value", fmt.Sprintf("AndX{cmd %02x, reserved 5a, offset %#04x} encodes as % x", cmd, off, got), map[string]any{"offset": off})
+		} else if err != nil || !bytes.Equal(got, want) {
 			r.Violation("andx.AndX.Marshal:offset-byteorder", fmt.Sprintf("AndX{cmd a2, reserved 5a, offset %#04x} encodes as % x, want % x", off, got, want), map[string]any{"offset": off})
 		}
 		b := andx.NewAndX()
 		_, err = b.Unmarshal(want)
 		r.Eval(1)
-		if err != nil || b.AndXOffset != off || b.AndXReserved != 0x5A || uint8(b.AndXCommand) != 0xA2 {
+		if err != nil || b.AndXOffset != off || b.AndXReserved != 0x5A || uint8(b.AndXCommand) != cmd {
 			r.Violation("andx.AndX.Unmarshal:offset-byteorder", fmt.Sprintf("bytes % x decode to %+v", want, *b), map[string]any{"offset": off})
 		}
 		for _, s := range structs {
@@ -147,7 +153,7 @@ func andxBlocks(structs []smbgen.Struct) {
 			}
 			smbgen.Fill(c, smbgen.Relations(s.Name), r.Rand("andx|"+s.Name), smbgen.ModeDistinct, 4)
 			x := andx.NewAndX()
-			x.AndXCommand, x.AndXReserved, x.AndXOffset = codes.CommandCode(0xA2), 0x5A, off
+			x.AndXCommand, x.AndXReserved, x.AndXOffset = codes.CommandCode(cmd), 0x5A, off
 			c.SetAndX(x)
 			var wire []byte
 			p, _, _ := mon.Guard(func() { wire, err = c.Marshal() })
@@ -162,6 +168,8 @@ func andxBlocks(structs []smbgen.Struct) {
 			}
 			if !bytes.Equal(params[:2], want[:2]) {
 				r.Violation(s.Name+":andx:command-reserved", fmt.Sprintf("first parameter bytes % x, want % x", params[:4], want), map[string]any{"wire": mon.FullHex(wire)})
+			} else if !bytes.Equal(params[2:4], want[2:]) && !bytes.Equal(params[2:4], []byte{want[3], want[2]}) {
+				r.Violation(s.Name+":andx:offset-value", fmt.Sprintf("AndXOffset %#04x (AndXCommand %#02x) is on the wire as % x: neither byte order of the value", off, cmd, params[2:4]), map[string]any{"struct": s.Name, "wire": mon.FullHex(wire)})
 			} else if !bytes.Equal(params[2:4], want[2:]) {
 				r.Violation("andx.AndX.GetParameters:offset-byteorder", fmt.Sprintf("%s: AndXOffset %#04x is on the wire as % x, want % x", s.Name, off, params[2:4], want[2:]), map[string]any{"struct": s.Name, "wire": mon.FullHex(wire)})
 			}
